@@ -1053,6 +1053,25 @@ def check_ctor_reaches(it, shape, ratio, f=10e9, T=262.0, S=0.004):
     return None
 
 
+def check_phantom_attributes():
+    """a layer property that some formula requires is either set on the layer by its constructor (or computed by a property of the class)
+    or absent: a plain class-level default would answer for every layer, so the clear error for a missing property could never be raised"""
+    t = table()
+    required = sorted({r for d in t["decls"].values() for r in d["required"]})
+    out = []
+    for label, fname, kw in CTOR_VARIANTS:
+        from smrt.inputs import make_medium
+        lay = getattr(make_medium, fname)(**kw)
+        own = set(visible_attributes(lay))
+        for r in required:
+            if hasattr(lay, r) and r not in own:
+                users = sorted(n for n, d in t["decls"].items() if r in d["required"])[:3]
+                out.append(("layer:phantom-required-property", f"a {label} layer answers '{r}' = {getattr(lay, r)!r} although its constructor never set it "
+                            f"(class-level default): formulae requiring it ({', '.join(users)}...) can no longer fail with the clear error",
+                            f"hasattr(layer, '{r}') is True", "absent (a clear error when a formula needs it)"))
+    return out
+
+
 def finding_of(case, r):
     d = table()["decls"][case["fn"]]
     key = f"{d['module']}.{d['name']}:{r[0]}"
@@ -1149,6 +1168,10 @@ def oracle(ctx, hints, effort):
             run(case)
     for case in witness_cases():
         run(case)
+    evals += len(CTOR_VARIANTS)
+    for r in check_phantom_attributes():
+        if r[0] not in {f.key for f in findings}:
+            findings.append(Finding(r[0], r[1], {"kind": "phantom"}, r[2], r[3]))
     for it in ("multiyear", "firstyear"):
         for shape in SHAPES:
             evals += 1
@@ -1239,6 +1262,9 @@ def replay(inp, rp=None):
         d = table()["decls"][inp["fn"]]
         rs = check_pinned_required(inp["fn"], d, inp["prop"], np.random.default_rng(0))
         return Finding(f"{d['module']}.{d['name']}:{rs[0][0]}", rs[0][1], inp, rs[0][2], rs[0][3]) if rs else None
+    if inp.get("kind") == "phantom":
+        rs = check_phantom_attributes()
+        return Finding(rs[0][0], rs[0][1], inp, rs[0][2], rs[0][3]) if rs else None
     if inp.get("kind") == "ctor-reaches":
         r = check_ctor_reaches(inp["ice_type"], inp["shape"], inp["ratio"])
         return None if r is None else Finding(r[0], r[1], inp, r[2], r[3])
